@@ -7,6 +7,7 @@ import (
 
 	"github.com/gordian-engine/gordian/tm/tmconsensus"
 	"github.com/gordian-engine/gordian/tm/tmengine/internal/tmmirror"
+	"github.com/gordian-engine/gordian/tm/tmengine/internal/tmstate"
 )
 
 // The Mirror follows the state of the active validators on the network,
@@ -30,9 +31,14 @@ func NewMirror(ctx context.Context, log *slog.Logger, opts ...Opt) (Mirror, erro
 	// Note that we never start the Engine we instantiate.
 	var e Engine
 
+	// Most options also populate the state machine config of a full Engine.
+	// The standalone mirror has no state machine,
+	// so those settings are collected into a scratch value and discarded.
+	var smCfg tmstate.StateMachineConfig
+
 	var err error
 	for _, opt := range opts {
-		err = errors.Join(err, opt(&e, nil))
+		err = errors.Join(err, opt(&e, &smCfg))
 	}
 	if err != nil {
 		return nil, err
